@@ -511,7 +511,7 @@ func abstractRun(a *absCtx, r *ScenarioRun, drvDir string) ([]map[string]any, er
 				logs := decodeAll(e.Logs)
 				errs := decodeAll(e.Errs)
 				rec := map[string]any{"ev": "match", "h": s.ID, "id": e.ID, "t": e.T, "api": st.API, "cfg": crec, "upd": upd,
-					"tdir": tdir, "tbase": "main_test",
+					"tdir": tdir, "tbase": map[bool]string{true: "other_test", false: "main_test"}[st.Via == "otherfile"],
 					"nerr": len(errs), "nlog": len(logs), "logk": logKind(logs), "errk": errKind(errs), "errm": errMatchers(errs),
 					"hasfs": hasfs, "fs": a.fsAll(e.Dirs, nil)}
 				x := st.X
